@@ -87,10 +87,11 @@ def run(ctx) -> None:
 
 # --------------------------------------------------------------------------- R04.0
 def r04_0(ctx) -> None:
-    u = ctx.unit("_core.ScopedIter.__aexit__")
+    u = ctx.inlined(ctx.unit("_core.ScopedIter.__aexit__"))  # the close may live in a private coroutine of its own
     cfg = cfg_of(u)
     src = "_core.ScopedIter.__init__:iterable"
-    closes = {n for n in cfg.nodes if ownership._is_aclose_await(ctx, u, n, src)}
+    closes = {n for n in cfg.nodes if ownership._is_aclose_await(ctx, u, n, src)
+              or ownership._is_close_helper_await(ctx, u, n, src)}
     ctx.count("scopediter_close_awaits", len(closes))
 
     def edge(a: Node, lab: str, b: Node) -> bool:
@@ -226,8 +227,17 @@ def _check_handle(ctx, short: str, info, pname: str, src: str, depth: int) -> No
                 return False
             if a.kind == "branch" and lab == "f" and "ACloseable" in norm(a.ast):
                 return False
-            if a.kind == "branch" and lab == "f" and isinstance(a.ast, ast.Attribute) and a.ast.attr in guards:
-                return False  # table GUARDS
+            if a.kind == "branch":
+                # table GUARDS: "the shared list is empty" means the last peer closed the source — under
+                # ``not``, and through a local that holds the field
+                e, empty_label = a.ast, "f"
+                while isinstance(e, ast.UnaryOp) and isinstance(e.op, ast.Not):
+                    e, empty_label = e.operand, ("t" if empty_label == "f" else "f")
+                if isinstance(e, ast.Name):
+                    from .common import inline_locals
+                    e = inline_locals(ctx, aclose, acfg, a, e)
+                if isinstance(e, ast.Attribute) and e.attr in guards and lab == empty_label:
+                    return False
             return True
 
         path = find_path(acfg.entry, lambda x: x is acfg.exit, avoid=lambda x: x in closes, edge_ok=edge)
